@@ -10,7 +10,25 @@ COMMON_NOTE = ("Trusted: Lean 4.33 kernel; axioms propext, Classical.choice, Quo
                "operators in both build profiles and of arbitrary-int's new/value/extract_uN — these are modelled, not verified, and are "
                "tied to /repo's current source on every run by executing the real macro output and the model's executable definitions on "
                "the same generated corpus and operations (differences are reported, with the failing input when the real code also "
-               "disagrees with the reference semantics); rustc itself for accept/reject, typing, const evaluation, layout and lints. ")
+               "disagrees with the reference semantics); rustc itself for accept/reject, typing, const evaluation, layout and lints. "
+               "Every emitted accessor body is compared with the model's body: syntactically, and by the verified normaliser Nf.bodiesEquiv "
+               "(Bb.Nf.bodiesEquiv_sound: equal normal forms => equal results for every raw value, written value, index and both profiles; "
+               "Bb.TV.*_validated: the accessor theorems then hold for the emitted body); the S-expression reader that feeds it is trusted and "
+               "validated by evaluating the read-back bodies on the probe operations; the model's integer semantics (eval) are validated "
+               "against rustc on a random expression corpus in both profiles on every run. ")
+TV_NOTE = {
+ "C01": " TV.getter_validated(_plain) / TV.accepted_getter_validated: the same result for ANY emitted getter body the normaliser finds equivalent to the model's (translation validation of the real macro output, all inputs).",
+ "C02": " TV.setter_validated / TV.accepted_setter_validated: the same for any emitted with_/set_ body the normaliser accepts.",
+ "C03": " TV.getter_validated, setter_validated and their _oob forms: in-range and out-of-range behaviour of any emitted array accessor body the normaliser accepts (bodiesEquiv checks every index < K and the assert head).",
+ "C04": " TV.getter_validated / setter_validated carry the gather / scatter statements over to any emitted body the normaliser accepts.",
+ "C05": " TV.getter_validated / setter_validated: likewise for emitted bodies of signed fields (sign extension and truncation of `as` are part of the normaliser).",
+ "C06": " Nf.bodiesEquiv_sound also validates the emitted raw_value / new_with_raw_value bodies against the model's.",
+ "C08": " TV.getter_validated (result through T::new_with_raw_value as a symbolic call) / setter_validated (value.raw_value() as a symbolic input) for emitted bodies of custom-typed fields.",
+ "C11": " TV.setter_validated: an emitted setter body the normaliser accepts keeps the register below 2^N.",
+ "C12": " TV.setter_validated: every step of a history may use any emitted body the normaliser accepts.",
+ "C13": " TV.setter_validated: the with_ calls of the chain may use any emitted body the normaliser accepts.",
+ "C16": " TV.validated_profile_independent / *_validated_oob: a validated emitted body gives the same result with overflow checks on and off and panics exactly on an out-of-range index.",
+}
 
 T = {
  "C01": ("Bb.C01.getter_contiguous: for every well-formed base (u8..u128, u1..u127), every accepted contiguous scalar field, every raw value and both profiles the generated getter evaluates to `field raw lo n` presented as the field type; getter_bits / getter_ignores_other_bits give the bit-level reading (bit k weighs 2^k, nothing outside the range matters). Unbounded in widths, positions and values. Prog.accepted_getter: the same for every field of every accepted declaration (hypotheses: accepted, in-range index, no bit named twice).", "§6 C01"),
@@ -53,9 +71,9 @@ def main():
                 "evidence_file": "/verif/evidence/%s.json" % pid,
                 "replay_cmd_template": "./check replay {path}",
                 "engine": "lean-model+correspondence",
-                "level_claimed": {"category": "proof", "text": "Machine-checked Lean 4 theorems about a model of the macro: " + text, "design_ref": ref},
+                "level_claimed": {"category": "proof", "text": "Machine-checked Lean 4 theorems about a model of the macro: " + text + TV_NOTE.get(pid, ""), "design_ref": ref},
                 "level_note": COMMON_NOTE + "FieldOk (the hypothesis of the accessor theorems) is discharged for every field definition the model's parse_field returns, for arbitrary attribute tokens, by Bb.parseField_ok (C09.accepted_fieldOk).",
-                "technique": "Lean 4 proof (kernel-checked theorems over a model of the proc macro) + differential correspondence run against /repo",
+                "technique": "Lean 4 proof (kernel-checked theorems over a model of the proc macro; verified normaliser for translation validation of the emitted bodies) + differential correspondence run against /repo",
             })
         else:
             na.append({"property_id": pid, "reason": "not claimed yet: the Lean theorems / correspondence for this property are still under construction in this session (planned, see DESIGN.md §6); no other technique is substituted"})
